@@ -14,7 +14,8 @@ RULE = ('pexpect.run() with its spawn class bound to the simulated pty child, ag
         'with child and event_count == number of earlier events; exit status == kernel truth and the child is reaped. '
         'Added later: the same pattern listed twice with different responses (first wins), prompts written in two pieces with a pause '
         'shorter or longer than the timeout inside them (TIMEOUT ticks in between), spawn options passed through run(**kwargs) '
-        '(searchwindowsize with marker events only, use_poll). Non-trivial: >= 1 event fired or >= 1 read; distinct by trace digest')
+        '(searchwindowsize with marker events only, use_poll), extra_args (must reach every callback in the state dictionary), '
+        'the runu() alias. Non-trivial: >= 1 event fired or >= 1 read; distinct by trace digest')
 
 ASSUME = ['a non-stopping callback on the EOF key makes run() spin by design (EOF repeats); generated EOF callbacks stop',
           'real fork/exec is replaced at the ptyprocess seam of pexpect.pty_spawn (and at spawn._spawnpty)']
@@ -29,6 +30,9 @@ def tag(scn, v):
 
 
 def spec(pid):
-    return CheckSpec('C12', 'run()', run_fam.generate, run_fam.run, level='exploration',
+    def run12(scn):
+        vs, info = run_fam.run(scn)
+        return [v for v in vs if v.clause.startswith('C12')], info
+    return CheckSpec('C12', 'run()', run_fam.generate, run12, level='exploration',
                      runs={'quick': 30000, 'thorough': 600000}, budget_s={'quick': 45, 'thorough': 900},
                      rule=RULE, assumptions=ASSUME, components=COMPONENTS, nontrivial=nontrivial, tag=tag)
